@@ -332,4 +332,138 @@ theorem consolidate_is_spec (ctx : Ctx) (st : Store) (l : List ((Nat × Nat) × 
     refine ⟨e, he, hek, ?_⟩
     rw [(h.2.1 e he).2.1, hek, hs]; exact hn.symm
 
+/-! ### mappings -/
+
+/-- strictly ascending -/
+def Asc (l : List Nat) : Prop := l.Pairwise (· < ·)
+
+theorem insertSorted_eq_insertUniq (x : Nat) : ∀ l : List Nat, insertSorted x l = insertUniq x l
+  | [] => rfl
+  | y :: ys => by simp only [insertSorted, insertUniq, insertSorted_eq_insertUniq x ys]
+
+theorem insertSorted_append_last (x : Nat) : ∀ acc : List Nat, (∀ y ∈ acc, y < x) → insertSorted x acc = acc ++ [x]
+  | [], _ => rfl
+  | y :: ys, h => by
+    have hy : y < x := h y List.mem_cons_self
+    simp only [insertSorted]
+    rw [if_neg (by omega), if_neg (by omega), insertSorted_append_last x ys (fun z hz => h z (List.mem_cons_of_mem _ hz))]
+    rfl
+
+theorem foldl_insertSorted_asc : ∀ (s acc : List Nat), Asc (acc ++ s) →
+    s.foldl (fun a x => insertSorted x a) acc = acc ++ s
+  | [], acc, _ => by simp
+  | x :: xs, acc, h => by
+    have hlt : ∀ y ∈ acc, y < x := by
+      intro y hy
+      have := List.pairwise_append.mp h
+      exact this.2.2 y hy x List.mem_cons_self
+    simp only [List.foldl_cons]
+    rw [insertSorted_append_last x acc hlt, foldl_insertSorted_asc xs (acc ++ [x]) (by simpa [Asc] using h)]
+    simp
+
+theorem unionSorted_nil_of_asc (s : List Nat) (h : Asc s) : unionSorted s [] = s := by
+  unfold unionSorted
+  rw [foldl_insertSorted_asc s [] (by simpa using h)]
+  rfl
+
+theorem mem_insertUniq {x z : Nat} : ∀ {l : List Nat}, z ∈ insertUniq x l ↔ z = x ∨ z ∈ l
+  | [] => by simp [insertUniq]
+  | y :: ys => by
+    simp only [insertUniq]
+    split
+    · rename_i h; subst h; simp
+    · split
+      · simp
+      · simp only [List.mem_cons, mem_insertUniq (l := ys)]
+        constructor
+        · rintro (h | h | h)
+          · exact .inr (.inl h)
+          · exact .inl h
+          · exact .inr (.inr h)
+        · rintro (h | h | h)
+          · exact .inr (.inl h)
+          · exact .inl h
+          · exact .inr (.inr h)
+
+theorem insertUniq_asc (x : Nat) : ∀ l : List Nat, Asc l → Asc (insertUniq x l)
+  | [], _ => by simp [insertUniq, Asc]
+  | y :: ys, h => by
+    have hc := List.pairwise_cons.mp h
+    simp only [insertUniq]
+    split
+    · exact h
+    · split
+      · rename_i hne hlt
+        refine List.pairwise_cons.mpr ⟨fun z hz => ?_, h⟩
+        rcases List.mem_cons.mp hz with rfl | hz
+        · exact hlt
+        · exact Nat.lt_trans hlt (hc.1 z hz)
+      · rename_i hne hnlt
+        refine List.pairwise_cons.mpr ⟨fun z hz => ?_, insertUniq_asc x ys hc.2⟩
+        rcases mem_insertUniq.mp hz with rfl | hz
+        · omega
+        · exact hc.1 z hz
+
+theorem sortDedup_asc : ∀ l : List Nat, Asc (sortDedup l)
+  | [] => by simp [sortDedup, Asc]
+  | x :: xs => by simp only [sortDedup]; exact insertUniq_asc x _ (sortDedup_asc xs)
+
+/-- a suffix that is not yet in the table is appended -/
+theorem addMapping_fresh (sfx : Nat) (ps : List Nat) : ∀ m : List (Nat × List Nat), sfx ∉ m.map (·.1) →
+    addMapping m sfx ps = m ++ [(sfx, unionSorted ps [])]
+  | [], _ => rfl
+  | (s, qs) :: rest, h => by
+    simp only [List.map_cons, List.mem_cons, not_or] at h
+    simp only [addMapping]
+    rw [if_neg (fun e => h.1 e.symm), addMapping_fresh sfx ps rest h.2]
+    rfl
+
+theorem mergeMappings_groupAreqs (anchor : Nat) :
+    ∀ (gs : List Group) (ps : List RpRow) (idsG : List (List Nat)) (m : List (Nat × List Nat)),
+      gs.length = ps.length → idsG.length = ps.length →
+      ((m.map (·.1)) ++ gs.map (·.suffix)).Nodup →
+      ((gs.zip (ps.zip idsG)).map (fun x => groupAreq anchor x.1 x.2.1 x.2.2)).foldl
+        (fun m a => a.maps.foldl (fun m' sp => addMapping m' sp.1 sp.2) m) m =
+      m ++ (gs.zip ps).map (fun gp => (gp.1.suffix, [gp.2.id]))
+  | [], [], _, m, _, _, _ => by simp
+  | [], _ :: _, _, _, h, _, _ => by simp at h
+  | _ :: _, [], _, _, h, _, _ => by simp at h
+  | _ :: _, _ :: _, [], _, _, h, _ => by simp at h
+  | g :: gs, p :: ps, i :: is, m, h1, h2, hn => by
+    have hfresh : g.suffix ∉ m.map (·.1) := by
+      intro hm
+      have := (List.nodup_append.mp hn).2.2 _ hm _ (List.mem_map.mpr ⟨g, List.mem_cons_self, rfl⟩)
+      exact this rfl
+    simp only [List.zip_cons_cons, List.map_cons, List.foldl_cons, groupAreq, List.foldl_nil]
+    rw [addMapping_fresh g.suffix [p.id] m hfresh]
+    have hu : unionSorted [p.id] [] = [p.id] := rfl
+    rw [hu]
+    have := mergeMappings_groupAreqs anchor gs ps is (m ++ [(g.suffix, [p.id])]) (by simpa using h1) (by simpa using h2)
+      (by simpa [List.map_append, List.append_assoc] using hn)
+    simp only [groupAreq] at this
+    rw [this]
+    simp
+
+/-- **the mappings the code builds for a combination are the specification's** (item 4, second half): suffixes are
+pairwise distinct (they are the names of the request groups) -/
+theorem mergeMappings_is_spec (anchor : Nat) (q : Query) (ps us : List RpRow) (idsU : List Nat) (idsG : List (List Nat))
+    (h1 : q.groups.length = ps.length) (h2 : idsG.length = ps.length)
+    (hs : ((match q.unsuff with | some g => [g.suffix] | none => []) ++ q.groups.map (·.suffix)).Nodup) :
+    mergeMappings (specCombo anchor q ps us idsU idsG) = Spec.mappings q ps us := by
+  unfold mergeMappings specCombo Spec.mappings
+  rw [List.foldl_append]
+  cases hq : q.unsuff with
+  | none =>
+    simp only [hq] at hs
+    have := mergeMappings_groupAreqs anchor q.groups ps idsG [] h1 h2 (by simpa using hs)
+    simpa using this
+  | some g =>
+    simp only [hq] at hs
+    simp only [List.foldl_cons, List.foldl_nil, unsuffAreq]
+    have hu : addMapping [] g.suffix (sortDedup (us.map (·.id))) = [(g.suffix, sortDedup (us.map (·.id)))] := by
+      show [(g.suffix, unionSorted (sortDedup (us.map (·.id))) [])] = _
+      rw [unionSorted_nil_of_asc _ (sortDedup_asc _)]
+    rw [hu]
+    exact mergeMappings_groupAreqs anchor q.groups ps idsG [(g.suffix, sortDedup (us.map (·.id)))] h1 h2 (by simpa using hs)
+
 end Placement.MergeSpec
